@@ -1113,26 +1113,33 @@ func Retract(vm *VM, t Term, k Cont, env *Env) *Promise {
 		return Error(permissionError(operationModify, permissionTypeStaticProcedure, pi.Term(), env))
 	}
 
-	ks := make([]func(context.Context) *Promise, len(u.clauses))
+	ks := make([]func(context.Context) *Promise, 0, len(u.clauses))
 	for i, c := range u.clauses {
+		if i > 0 && c.sibling(u.clauses[i-1]) {
+			continue // One clause term with a disjunctive body is one clause.
+		}
 		c := c
 		cp, err := renamedCopy(c.raw, nil, nil) // The variables of a stored clause are local to it.
 		if err != nil {
 			return Error(err)
 		}
 		raw := rulify(cp, nil)
-		ks[i] = func(_ context.Context) *Promise {
+		ks = append(ks, func(_ context.Context) *Promise {
 			return Unify(vm, t, raw, func(env *Env) *Promise {
 				// Removes the very clause it unified with, wherever it is by now, without touching the snapshots of open calls.
 				for j := range u.clauses {
 					if id(u.clauses[j].raw) == id(c.raw) {
-						u.clauses = append(u.clauses[:j:j], u.clauses[j+1:]...)
+						n := j + 1
+						for n < len(u.clauses) && u.clauses[n].sibling(c) {
+							n++
+						}
+						u.clauses = append(u.clauses[:j:j], u.clauses[n:]...)
 						break
 					}
 				}
 				return k(env)
 			}, env)
-		}
+		})
 	}
 	return Delay(ks...)
 }
@@ -2007,16 +2014,19 @@ func Clause(vm *VM, head, body Term, k Cont, env *Env) *Promise {
 		return Error(permissionError(operationAccess, permissionTypePrivateProcedure, pi.Term(), env))
 	}
 
-	ks := make([]func(context.Context) *Promise, len(u.clauses))
+	ks := make([]func(context.Context) *Promise, 0, len(u.clauses))
 	for i, c := range u.clauses {
+		if i > 0 && c.sibling(u.clauses[i-1]) {
+			continue // One clause term with a disjunctive body is one clause.
+		}
 		cp, err := renamedCopy(c.raw, nil, nil) // The variables of a stored clause are local to it.
 		if err != nil {
 			return Error(err)
 		}
 		r := rulify(cp, nil)
-		ks[i] = func(context.Context) *Promise {
+		ks = append(ks, func(context.Context) *Promise {
 			return Unify(vm, atomIf.Apply(head, body), r, k, env)
-		}
+		})
 	}
 	return Delay(ks...)
 }
